@@ -844,3 +844,51 @@ func (e *Engine) runReplay(fi *FuncInfo, ncases int, seed int) *ReplayResult {
 	res.Supported = true
 	return res
 }
+
+// runOverlayTest injects a test file into a package of /repo via -overlay and runs it; returns output and whether it failed
+func (e *Engine) runOverlayTest(pkg, fileName, src, run string) (string, bool) {
+	base := os.Getenv("XDG_CACHE_HOME")
+	if base == "" {
+		base = filepath.Join(os.Getenv("HOME"), ".cache")
+	}
+	dir := filepath.Join(base, "govc", fmt.Sprintf("ov%d_%s", os.Getpid(), sanitize(fileName)))
+	os.MkdirAll(dir, 0o755)
+	defer os.RemoveAll(dir)
+	pkgDir := filepath.Join(e.w.RepoDir, pkg)
+	testFile := filepath.Join(dir, fileName)
+	os.WriteFile(testFile, []byte(src), 0o644)
+	ov := map[string]map[string]string{"Replace": {filepath.Join(pkgDir, fileName): testFile}}
+	ovb, _ := json.Marshal(ov)
+	ovFile := filepath.Join(dir, "overlay.json")
+	os.WriteFile(ovFile, ovb, 0o644)
+	cmd := exec.Command("go", "test", "-overlay", ovFile, "-vet=off", "-count=1", "-timeout", "60s", "-run", run, ".")
+	cmd.Dir = pkgDir
+	cmd.Env = append(os.Environ(), "GOFLAGS=-mod=mod", "GOPROXY=off", "GOSUMDB=off", "GOTOOLCHAIN=local")
+	out, err := cmd.CombinedOutput()
+	return string(out), err != nil
+}
+
+// like runOverlayTest, but the test writes its result to $VERIF_REPLAY_OUT, which is returned
+func (e *Engine) runOverlayTestOut(pkg, fileName, src, run string, env []string) (string, string) {
+	base := os.Getenv("XDG_CACHE_HOME")
+	if base == "" {
+		base = filepath.Join(os.Getenv("HOME"), ".cache")
+	}
+	dir := filepath.Join(base, "govc", fmt.Sprintf("ovo%d_%s", os.Getpid(), sanitize(fileName)))
+	os.MkdirAll(dir, 0o755)
+	defer os.RemoveAll(dir)
+	pkgDir := filepath.Join(e.w.RepoDir, pkg)
+	testFile := filepath.Join(dir, fileName)
+	os.WriteFile(testFile, []byte(src), 0o644)
+	ov := map[string]map[string]string{"Replace": {filepath.Join(pkgDir, fileName): testFile}}
+	ovb, _ := json.Marshal(ov)
+	ovFile := filepath.Join(dir, "overlay.json")
+	os.WriteFile(ovFile, ovb, 0o644)
+	outFile := filepath.Join(dir, "out.json")
+	cmd := exec.Command("go", "test", "-overlay", ovFile, "-vet=off", "-count=1", "-timeout", "600s", "-run", run, ".")
+	cmd.Dir = pkgDir
+	cmd.Env = append(append(os.Environ(), "GOFLAGS=-mod=mod", "GOPROXY=off", "GOSUMDB=off", "GOTOOLCHAIN=local", "VERIF_REPLAY_OUT="+outFile), env...)
+	out, _ := cmd.CombinedOutput()
+	data, _ := os.ReadFile(outFile)
+	return string(out), string(data)
+}
